@@ -208,6 +208,8 @@ def run_check(mod, tier, seed, emit_known=None, only=None):
         "distinct_outcomes": len(agg["outcomes"]),
         "samples": agg["samples"][:6] or ["(no sample)"],
         "exhaustive": True,
+        "exhaustive_means": "every member of the finite space defined in 'rule' was executed on this run (no sampling, no time or branch cap); "
+                            "where 'rule' names a stride (every k-th member of a larger family) that stride is part of the definition of the space",
         "counters": dict(agg["extra"]),
         "known_findings_excused": dict(excused),
     }
